@@ -1,6 +1,8 @@
 (* Proofs/MergeShape.v — C02, extension E4 (part 3): two consequences of ordered_dest / merge_spec stated on
    their own: every destination column has the same number of rows, and the rows of the ordered path are in
-   non-decreasing key order (with the key column of the destination as the witness). *)
+   non-decreasing key order (with the key column of the destination as the witness).
+   Reconciled with extension E7 (fix-F-C02f): no `nbd` hypothesis anywhere — the end-to-end theorems hold for the
+   general variants with keys repeated on both sides (example all_hyps_example_m2m). *)
 From Coq Require Import ZArith List Lia Bool.
 From EV Require Import Res Arr Join JoinSpec JoinBase JoinIface JoinRows MapStream MapStreamSpec MapIndexedDriver
   JoinDriver JoinMain JoinAll Merge MergeSpec MergeBase MergeOrdered MergeMaps MergeTop MergeRows MergeCopy MergeAll.
@@ -50,15 +52,14 @@ Qed.
 Theorem ordered_dest_same_length how lu ru lk rk lcols rcols lsuf rsuf :
   let inv := merge_invalid lu ru (len lk) (len rk) in
   how = 0 \/ how = 1 \/ how = 2 ->
-  sorted lk -> sorted rk -> nbd (sel_a how lk rk) (sel_b how lk rk) ->
   (v_writes_l (sel_variant how lu ru) = false -> ssorted (sel_b how lk rk)) ->
   len lk <= inv -> len rk <= inv ->
   frame_wf (len lk) lcols -> frame_wf (len rk) rcols ->
   forall f, In f (ordered_dest how lu ru lk rk lcols rcols lsuf rsuf) ->
   col_len (snd f) = len (merge_pairs how [lk] [rk]).
 Proof.
-  intros inv Hhow HL HR Hd Hu HiL HiR HwL HwR f Hin.
-  rewrite (ordered_dest_is_merge_spec_all how lu ru lk rk lcols rcols lsuf rsuf Hhow HL HR Hd Hu HiL HiR HwL HwR) in Hin.
+  intros inv Hhow Hu HiL HiR HwL HwR f Hin.
+  rewrite (ordered_dest_is_merge_spec_all how lu ru lk rk lcols rcols lsuf rsuf Hhow Hu HiL HiR HwL HwR) in Hin.
   fold inv in Hin. apply in_app_or in Hin. destruct Hin as [Hin|Hin].
   2:{ apply (merge_spec_same_length how [lk] [rk] lcols rcols lsuf rsuf). exact Hin. }
   rewrite (len_merge_pairs how lu ru lk rk inv Hhow HiL HiR).
@@ -292,7 +293,6 @@ Hypothesis Hmcs : 1 <= mcs.
 Hypothesis Hvf : 0 <= vf.
 Hypothesis Hccs : 1 <= ccs.
 Hypothesis Hpre : hints_truthful lu ru lk rk.
-Hypothesis Hnbd : nbd (sel_a how lk rk) (sel_b how lk rk).
 Hypothesis Hck : chunks_ok (v_kind (sel_variant how lu ru)) cs (sel_a how lk rk) (sel_b how lk rk).
 Hypothesis Hlframe : frame_ok (len lk) lcols (mcs * vf).
 Hypothesis Hrframe : frame_ok (len rk) rcols (mcs * vf).
@@ -305,7 +305,6 @@ Lemma dest_is_spec :
   = map_fields (fst (jmaps how lu ru lk rk inv)) (snd (jmaps how lu ru lk rk inv)) ++
     merge_spec how [lk] [rk] lcols rcols lsuf rsuf.
 Proof.
-  destruct Hpre as (HsL & HsR & _).
   apply ordered_dest_is_merge_spec_all; try assumption.
   - apply hints_b_unique. exact Hpre.
   - apply merge_invalid_ge. exact HlenL.
@@ -327,7 +326,6 @@ Theorem ordered_merge_same_length d :
   forall f, In f d -> col_len (snd f) = len (merge_pairs how [lk] [rk]).
 Proof.
   rewrite ordered_merge_correct_all by assumption. intros Hd. inversion Hd; subst d. clear Hd.
-  destruct Hpre as (HsL & HsR & _).
   apply ordered_dest_same_length; try assumption.
   - apply hints_b_unique. exact Hpre.
   - apply merge_invalid_ge. exact HlenL.
@@ -369,7 +367,6 @@ End EndToEnd.
    copied), join chunk 3 on 4 keys: two kernel calls, one refill; an unmatched row at the end *)
 Example all_hyps_example_ru :
   hints_truthful false true [1;2;2;5] [0;2;3;4] /\
-  nbd (sel_a 0 [1;2;2;5] [0;2;3;4]) (sel_b 0 [1;2;2;5] [0;2;3;4]) /\
   chunks_ok (v_kind (sel_variant 0 false true)) 3 (sel_a 0 [1;2;2;5] [0;2;3;4]) (sel_b 0 [1;2;2;5] [0;2;3;4]) /\
   v_writes_l (sel_variant 0 false true) = false /\
   ordered_merge MFixed 0 false true [1;2;2;5] [0;2;3;4]
@@ -382,9 +379,8 @@ Example all_hyps_example_ru :
 Proof.
   assert (HR : ssorted [0;2;3;4]) by (apply ssortedb_ssorted; reflexivity).
   assert (HL : sorted [1;2;2;5]) by (apply sortedb_sorted; reflexivity).
-  split; [|split; [|split; [|split; [|split]]]].
+  split; [|split; [|split; [|split]]].
   - unfold hints_truthful. split; [exact HL|]. split; [apply ssorted_sorted; exact HR|]. split; [discriminate|intros _; exact HR].
-  - apply nbd_right_unique. exact HR.
   - split; [|discriminate]. intros _ a Ha Hlt. assert (a = 0) as -> by (cbn in Hlt; lia).
     exists 1. split; [lia|cbv; discriminate].
   - reflexivity.
@@ -392,10 +388,9 @@ Proof.
   - vm_compute. reflexivity.
 Qed.
 
-(* how='inner' without unique hints (general generator, both sides trimmed), a run on the left, none repeated on both *)
+(* how='inner' without unique hints (general generator, both sides trimmed), a run on the left *)
 Example all_hyps_example_gen :
   hints_truthful false false [1;1;2;3] [1;3;4] /\
-  nbd (sel_a 2 [1;1;2;3] [1;3;4]) (sel_b 2 [1;1;2;3] [1;3;4]) /\
   chunks_ok (v_kind (sel_variant 2 false false)) 3 (sel_a 2 [1;1;2;3] [1;3;4]) (sel_b 2 [1;1;2;3] [1;3;4]) /\
   ordered_merge MFixed 2 false false [1;1;2;3] [1;3;4]
      [([107], CFix [0] [0] [[1];[1];[2];[3]])] [([107], CFix [0] [0] [[1];[3];[4]])] [95;108] [95;114] 4 3 3 2 2 2
@@ -405,12 +400,43 @@ Example all_hyps_example_gen :
 Proof.
   assert (HR : ssorted [1;3;4]) by (apply ssortedb_ssorted; reflexivity).
   assert (HL : sorted [1;1;2;3]) by (apply sortedb_sorted; reflexivity).
-  split; [|split; [|split; [|split]]].
+  split; [|split; [|split]].
   - unfold hints_truthful. split; [exact HL|]. split; [apply ssorted_sorted; exact HR|]. split; discriminate.
-  - apply nbd_right_unique. exact HR.
   - split; intros _ a Ha Hlt.
     + assert (a = 0) as -> by (cbn in Hlt; lia). exists 2. split; [lia|cbv; discriminate].
     + cbn in Hlt. lia.
+  - vm_compute. reflexivity.
+  - vm_compute. reflexivity.
+Qed.
+
+(* how='left' without unique hints and keys 1 and 3 repeated on BOTH sides (many-to-many: outside the former hypothesis
+   nbd, the F-C02f region): the right map [0;1;0;1;inv;2;3;2;3] is not monotone, the map streams of the repaired
+   operations.py follow it, for a numeric and an indexed-string column on each side; join chunk 3 on 5 keys *)
+Example all_hyps_example_m2m :
+  hints_truthful false false [1;1;2;3;3] [1;1;3;3;4] /\
+  ~ nbd (sel_a 0 [1;1;2;3;3] [1;1;3;3;4]) (sel_b 0 [1;1;2;3;3] [1;1;3;3;4]) /\
+  chunks_ok (v_kind (sel_variant 0 false false)) 3 (sel_a 0 [1;1;2;3;3] [1;1;3;3;4]) (sel_b 0 [1;1;2;3;3] [1;1;3;3;4]) /\
+  ordered_merge MFixed 0 false false [1;1;2;3;3] [1;1;3;3;4]
+     [([107], CFix [0] [0] [[1];[1];[2];[3];[3]]); ([120;97], CIdx [0;1;1;3;4;6] [97;99;99;100;101;101])]
+     [([107], CFix [0] [0] [[1];[1];[3];[3];[4]]); ([120;98], CIdx [0;2;3;3;4;4] [98;98;99;100])] [95;108] [95;114] 5 5 3 2 2 2
+  = Ok [ (N_left_map, map_column [0;0;1;1;2;3;3;4;4]);
+         (N_right_map, map_column [0;1;0;1;INVALID_INDEX_64;2;3;2;3]);
+         ([107;95;108], CFix [0] [0] [[1];[1];[1];[1];[2];[3];[3];[3];[3]]);
+         ([120;97], CIdx [0;1;2;2;2;4;5;6;8;10] [97;97;99;99;100;100;101;101;101;101]);
+         ([107;95;114], CFix [0] [0] [[1];[1];[1];[1];[0];[3];[3];[3];[3]]);
+         ([120;98], CIdx [0;2;3;5;6;6;6;7;7;8] [98;98;99;98;98;99;100;100]) ] /\
+  dest_keys 0 [1;1;2;3;3] [1;1;3;3;4] = [1;1;1;1;2;3;3;3;3].
+Proof.
+  assert (HL : sorted [1;1;2;3;3]) by (apply sortedb_sorted; reflexivity).
+  assert (HR : sorted [1;1;3;3;4]) by (apply sortedb_sorted; reflexivity).
+  split; [|split; [|split; [|split]]].
+  - unfold hints_truthful. split; [exact HL|]. split; [exact HR|]. split; discriminate.
+  - cbn [sel_a sel_b Z.eqb nbd]. intros (H & _). specialize (H (or_introl eq_refl)). vm_compute in H. lia.
+  - split; intros _ a Ha Hlt; cbn in Hlt; assert (a = 0 \/ a = 1) as [-> | ->] by lia.
+    + exists 2. split; [lia|cbv; discriminate].
+    + exists 2. split; [lia|cbv; discriminate].
+    + exists 2. split; [lia|cbv; discriminate].
+    + exists 2. split; [lia|cbv; discriminate].
   - vm_compute. reflexivity.
   - vm_compute. reflexivity.
 Qed.
